@@ -215,7 +215,7 @@ func C08(c *Ctx, r *report.Run) error {
 		}
 	}
 	r.Programs = len(specs)
-	w, err := ws.Build(c.Bins, specs, ws.Options{Variant: ws.HC, Tag: "rtHC08", Harness: true, TS: true})
+	w, err := ws.Build(c.Bins, specs, ws.Options{Variant: ws.CH, Tag: "rtCH08", Harness: true, TS: true})
 	if err != nil {
 		return err
 	}
